@@ -3,29 +3,54 @@ open Glue
 open Frame
 open Srcgen
 
-type case = Srcgen.case
+type e2e = { units : Model.unit_ list; cmds : string list list }
+type case = Hist of Srcgen.case | E2E of e2e
 let id = "C08"
 let rule = "traffic histories against the scripted fake source over real time: 1..3 connections (drop = FIN then close, reconnection answered +CONTINUE in \
 random letter case, optionally with stream bytes in the same segment), 1..4 acknowledgement ticks per connection, 0..3 bursts per tick window of 1..30000 \
 bytes (tick-aligned: bursts 150-500 ms into the window so that every acknowledgement has an exact expected value; continuous: bursts anywhere, range check), \
 idle windows, the end of the full sync placed in any window or never, start offsets up to 2^61; every REPLCONF ACK / PSYNC received by the source is logged \
-with the stream position sent at that time and 400 ms earlier; non-trivial = at least one acknowledgement after the full sync with bytes received; distinct by wire line"
+with the stream position sent at that time and 400 ms earlier; plus end-to-end runs of the real start path (NewDbSyncer + Sync: RDB through the worker pool, then a command stream over several databases, the source connection dropped in the middle and re-established) against fakeredis: the offsets stored in the checkpoint of every database must be the exact stream position after the last command executed there, the re-PSYNC must ask for start + bytes received + 1, every key must arrive; non-trivial = at least one acknowledgement after the full sync with bytes received, or an end-to-end run; distinct by wire line"
+
+let raw s = Model.SRaw ((if String.length s < 64 then Model.L6 else Model.L14), bytes_of_string s)
+let gen_e2e st =
+  let units = [ Model.USelect (Model.L6, n_of_int 0); Model.UKey (raw "r1", Model.VStr (Model.N0, raw "v1"));
+                Model.USelect (Model.L6, n_of_int 2); Model.UKey (raw "r2", Model.VStr (Model.N0, raw "v2")) ] in
+  let n = 6 + rnd_int st 14 in
+  let cur = ref 0 in
+  let cmds = ref [ [ "select"; "0" ] ] in
+  for i = 1 to n do
+    (match rnd_int st 7 with
+     | 0 -> let d = rnd_pick st [ 0; 1; 2; 5 ] in if d <> !cur then (cur := d; cmds := [ "select"; string_of_int d ] :: !cmds)
+     | 1 -> cmds := [ "lpush"; Printf.sprintf "l%d" i; "x"; String.make (rnd_int st 40) 'y' ] :: !cmds
+     | 2 -> cmds := [ "hset"; Printf.sprintf "h%d" i; "f"; "v" ] :: !cmds
+     | 3 -> cmds := [ "sadd"; Printf.sprintf "s%d" i; "m" ] :: !cmds
+     | _ -> cmds := [ "set"; Printf.sprintf "k%d" i; rnd_string_of st "abcdef" (1 + rnd_int st 30) ] :: !cmds)
+  done;
+  cmds := [ "set"; "last"; "1" ] :: !cmds;
+  E2E { units; cmds = List.rev !cmds }
 
 let gen st tier =
   let thorough = tier = "thorough" in
-  List.init (if thorough then 360 else 48) (fun i -> gen_history st ~quiet:(i mod 4 <> 3))
+  List.init (if thorough then 360 else 48) (fun i -> Hist (gen_history st ~quiet:(i mod 4 <> 3)))
+  @ List.init (if thorough then 60 else 6) (fun _ -> gen_e2e st)
 
 (* F11 witness: two ticks with traffic after the full sync, then a reconnection *)
-let corpus = [
+let corpus = [ Hist
   { mode = "psync"; start = 1000; runid = "abc"; nrdb = 5; seed_r = 1; ncmd = 993; seed_c = 2; chunk = 4096; pause_us = 0; quiet = true;
     conns = [ { hdr = "+FULLRESYNC abc 1000\r\n\n$5\r\n"; acts = [ "S33"; "M"; "F"; "W200"; "S100"; "W1400"; "W2200"; "S50"; "W3300"; "D" ] };
               { hdr = "+CONTINUE\r\n"; acts = [ "W300"; "S500"; "W1400"; "S342"; "W2300" ] } ];
     note = "F11 witness" } ]
 
-let to_line = Srcgen.to_line
-let show = Srcgen.show
+let e2e_cmd_bytes (e : e2e) = String.concat "" (List.map Incrgen.resp_bytes e.cmds)
+let to_line = function
+  | Hist c -> Srcgen.to_line c
+  | E2E e -> Printf.sprintf "e2e %s %s" (hex_of_string (Rdbgen.image 9 e.units)) (hex_of_string (e2e_cmd_bytes e))
+let show = function
+  | Hist c -> Srcgen.show c
+  | E2E e -> "end-to-end Sync(): RDB with 2 keys in 2 databases, then (dropped and re-established in the middle) " ^ String.concat " / " (List.map (String.concat " ") e.cmds)
 
-let classify c =
+let classify = function E2E _ -> Some "end-to-end" | Hist c ->
   let has a = List.exists (fun k -> List.mem a k.acts) c.conns in
   if not (has "F") then None else
   Some (Printf.sprintf "%dconn:%s" (List.length c.conns) (if c.quiet then "aligned" else "continuous"))
@@ -34,7 +59,52 @@ let fail kind sig_ model impl detail = Fail { kind; sig_; model; impl; detail }
 
 let show_out = function Model.Ack v -> "ack " ^ decimal_of_z v | Model.Psync v -> "psync " ^ decimal_of_z v
 
-let judge c obs =
+let judge_e2e (e : e2e) obs =
+  let impl = let s = String.concat " " obs in if String.length s > 1800 then String.sub s 0 1800 ^ "..." else s in
+  if field obs "abort" <> None || field obs "panic" <> None then fail "oracle" "e2e:abort" "" impl "the end-to-end run aborted" else
+  (* where every command ends in the stream, and the database it executes in *)
+  let off = ref 0 and cur = ref 0 in
+  let last = Hashtbl.create 8 and keys = Hashtbl.create 32 in
+  List.iter (function Model.UKey (k, _) -> () | _ -> ()) e.units;
+  let rdb_db = ref 0 in
+  List.iter (function
+    | Model.USelect (_, n) -> rdb_db := int_of_n n
+    | Model.UKey (k, _) -> Hashtbl.replace keys (!rdb_db, string_of_bytes (Model.logical_string k)) ()
+    | _ -> ()) e.units;
+  List.iter (fun w ->
+    off := !off + String.length (Incrgen.resp_bytes w);
+    (match w with
+     | [ "select"; d ] -> cur := int_of_string d
+     | _ :: k :: _ -> Hashtbl.replace keys (!cur, k) ()
+     | _ -> ());
+    Hashtbl.replace last !cur (1000 + !off)) e.cmds;
+  let total = !off in
+  let want_ck = List.sort compare (Hashtbl.fold (fun d o a -> (d, o) :: a) last []) in
+  let expect = Printf.sprintf "checkpoint offsets %s; second PSYNC %d; %d keys" (String.concat " " (List.map (fun (d, o) -> Printf.sprintf "db%d=%d" d o) want_ck))
+                 (1000 + total / 2 + 1) (Hashtbl.length keys) in
+  let unhexd h = if h = "-" then "" else string_of_hex h in
+  let ck = match field obs "ckpt" with
+    | None | Some "" -> []
+    | Some s -> List.filter_map (fun x -> match String.split_on_char '/' x with
+        | [ d; fv ] -> (match String.split_on_char '=' fv with [ f; v ] -> Some (int_of_string d, unhexd f, unhexd v) | _ -> None) | _ -> None) (String.split_on_char ',' s) in
+  let ends_with s suf = String.length s >= String.length suf && String.sub s (String.length s - String.length suf) (String.length suf) = suf in
+  let got_ck = List.sort compare (List.filter_map (fun (d, f, v) -> if ends_with f "-offset" then Some (d, int_of_string v) else None) ck) in
+  let runids = List.sort_uniq compare (List.filter_map (fun (_, f, v) -> if ends_with f "-runid" then Some v else None) ck) in
+  let psyncs = match field obs "psyncs" with None | Some "" -> [] | Some s -> List.map (fun x -> match String.split_on_char ':' x with [ r; v ] -> (unhexd r, int_of_string v) | _ -> ("", 0)) (String.split_on_char ',' s) in
+  let tkeys = match field obs "tkeys" with None | Some "" -> [] | Some s -> List.filter_map (fun x -> match String.split_on_char '/' x with [ d; k ] -> Some (int_of_string d, unhexd k) | _ -> None) (String.split_on_char ',' s) in
+  let data_keys = List.filter (fun (_, k) -> not (String.length k >= 22 && String.sub k 0 22 = "redis-shake-checkpoint")) tkeys in
+  let want_keys = List.sort compare (Hashtbl.fold (fun k () a -> k :: a) keys []) in
+  if got_ck <> want_ck then
+    fail "oracle" "e2e:checkpoint-offset" expect impl "the offsets stored in the checkpoints are not the exact stream positions after the last command of each database"
+  else if runids <> [ "8f3ac0ffee" ] then fail "oracle" "e2e:checkpoint-runid" expect impl "the run id stored in the checkpoints is not the one the source announced"
+  else if (match psyncs with [ (_, -1); ("8f3ac0ffee", o) ] -> o <> 1000 + total / 2 + 1 | _ -> true) then
+    fail "oracle" "e2e:reconnect-offset" expect impl "the PSYNC requests seen by the source are not (initial request, offset -1) and (run id, start + bytes received + 1)"
+  else if List.sort compare data_keys <> want_keys then
+    fail "oracle" "e2e:keys" expect (Printf.sprintf "target keys: %s" (String.concat " " (List.map (fun (d, k) -> Printf.sprintf "db%d/%s" d k) data_keys)))
+      "the target does not hold exactly the keys of the RDB and of the command stream, each in its database (a gap or repetition at the reconnection would show here)"
+  else Agree
+
+let judge c obs = match c with E2E e -> judge_e2e e (match obs with "e2e" :: r -> r | r -> r) | Hist c ->
   let impl = String.concat " " obs in
   match field obs "err" with
   | Some e -> fail "oracle" "handoff-error" "" impl ("the hand-off failed: " ^ e)
